@@ -10,7 +10,7 @@ RULE = ("masses {0, 1e-3, 1, 750, 1800, 5000, 1e5} + random in [0,1e5] x peak co
         "against the exact model (ratio law, sum, m/z ladder); masses up to 1e9 x counts up to 300 (length, sum, "
         "spacing, range only); thresholds on a grid in [0,1] plus neighbours of switching points (minimality vs the "
         "model, monotonicity on the implementation itself); class = (regime, n bucket, charge sign, outcome)")
-MODULES = ["Props.C15", "Props.C15Float", "Inst.Consts", "Props.C15Range"]
+MODULES = ["Props.C15", "Props.C15Float", "Inst.Consts", "Props.C15Range", "Props.C15RangeN"]
 NS = Fraction(10033548378, 10 ** 10)
 
 
